@@ -26,7 +26,8 @@ PLAN = ("for each selected UNI number one generic magnetic crystal per (moment k
         "lattice vectors); all moments reversed; all moments zero; weakly canted moments (about half of the moments perturbed by "
         "6 mag_symprec .. 0.3 sqrt(mag_symprec), mag_symprec in {1e-5, 1e-4}: the symmetry is then an unknown subgroup, these cases "
         "are judged by the truth-independent clauses of C11 only - every reported operation maps moments within 4 mag_symprec, "
-        "group axioms, index); supercell by a random HNF of index 2..3 (thorough 2..4); "
+        "group axioms, index); noise well inside the tolerances (atoms and lattice 5 % of symprec, moments 5 % of mag_symprec, "
+        "judged by all clauses: the standardized cell must still come out exactly symmetric); supercell by a random HNF of index 2..3 (thorough 2..4); "
         "symprec 1e-4, mag_symprec in {None, 1e-4, 3e-4, 1e-3}.  "
         "quick: UNI numbers with (uni+seed) mod 3 == 0 plus the first entry of every construct type x centering class, one "
         "combination chosen by (uni+seed) mod 4, always a re-described case, the other variants for a seed-dependent 1/3..1/6 "
@@ -208,13 +209,15 @@ def run_property(pid, tier, seed, props, rule, nontrivial, classify=None, truste
     # stage correspondence of the magnetic stage models (checks/stages_mag.py), as `stages=` of checks/pipe.py
     stage_bad = []
     if stages:
-        from checks import stages_mag
+        from checks import stages_magid as stages_mag
         try:
             nst, stage_bad, sstats = stages_mag.run_stages(stages, tier, seed, key)
             cov["stage_cases_compared"] = nst
             cov["stage_model_impl_disagreements"] = len(stage_bad)
             cov["stages"] = stages
             cov["stage_stats"] = sstats
+            for h in (sstats or {}).get("failing_inputs_" + pid, []):
+                new.append((h["case"], h["clauses"], None))
         except RuntimeError as e:
             stage_bad = [("mag-stage-gen", str(e))]
     if new:
